@@ -89,6 +89,18 @@ def main(rep):
                                                  "what": "implementation and model differ"})
                 continue
             validated += 1
+        # "the pending queue is serviced and the wait it asks for is the one the daemon sleeps": the loop above scripts the
+        # handler's answers; here the REAL handler gives them, in histories where the configuration (debounce, queue)
+        # is rewritten while something is pending and has already been looked at - the answer of every pass must be the
+        # one the queue on disk and the debounce in force prescribe
+        if not found:
+            import check_C16 as c16
+            import world_check as wk
+            wcases = [c for c in c16.reload_cases(rep.tier, rep.seed) if "deb" in c[2]][:60 if rep.tier == "quick" else 600]
+            f2, v2 = wk.run_cases(rep, exe_impl, exe_model, wcases, ["bursts", "fault_reported"], what="wait")
+            found = found or f2
+            validated += v2
+            rep.cov["handler_wait_histories"] = len(wcases)
         rep.cov["traces_validated_against_impl"] = validated
         for p in problems:
             rep.notes.append(p)
